@@ -205,6 +205,8 @@ def dict_display(ex, e, fr):
         return rec
     if not keys:
         return Val(Ty("emptydict"), None)
+    if all(k.ty.kind == "cls" for k in keys) and all(v.ty.kind == "cls" for v in vals):
+        return Val(Ty("classmap"), None, meta=dict(table={k.name: v.name for k, v in zip(keys, vals)}, parts=None))
     kt, vt = keys[0].ty, vals[0].ty
     d = new_dict(ex, kt, vt)
     for k, v in zip(keys, vals):
@@ -342,8 +344,10 @@ def binop(ex, op, a, b, fr, inplace=False, node=None):
         return Val(Ty("str"), smt.STR.SCat(a.t, b.t))
     if a.ty.kind == "list" and b.ty.kind == "list" and op == "Add":
         return list_concat(ex, a, b)
-    if op == "BitOr" and a.ty.kind in ("dict", "emptydict", "classmap") and b.ty.kind in ("dict", "emptydict", "classmap"):
-        return Val(Ty("classmap"), None, meta=dict(parts=[a, b]))
+    if op == "BitOr" and (a.ty.kind in ("emptydict", "classmap") or (a.ty.kind == "ref" and a.ty.cls == "$ClassMap")) \
+            and b.ty.kind == "classmap":
+        # user map | built-in table: for keys present in both the right operand wins
+        return Val(Ty("classmap"), None, meta=dict(table=dict(b.meta["table"]), user=a))
     raise Unsupported(f"binary {op} on {a.ty}, {b.ty} at {src.loc(fr.fi, node) if node is not None else ''}")
 
 
@@ -547,6 +551,8 @@ def subscript(ex, v, sl, fr, node):
             lo, hi = slice_bounds(ex, n, sl, fr)
             j = z3.Int("j")
             ln = z3.If(hi - lo > 0, hi - lo, 0)
+            if z3.is_int_value(z3.simplify(lo)) and z3.simplify(lo).as_long() == 0:
+                return vlist(v.ty.args[0], z3.simplify(hi), larrs(ex, v))      # a prefix shares the item functions
             arrs = [z3.Lambda([j], _sel(a, lo + j)) for a in larrs(ex, v)]
             return vlist(v.ty.args[0], z3.simplify(ln), arrs)
         iv = ex.ev(sl, fr)
@@ -591,7 +597,9 @@ def subscript(ex, v, sl, fr, node):
         raise Unsupported("tuple indexed by a symbolic index")
     if k == "classmap":
         key = ex.ev(sl, fr)
-        return Val(Ty("clsof_config"), key.t, meta=dict(map=v, key=key))
+        if key.ty.kind != "clsof":
+            raise Unsupported("class map indexed by something that is not type(x)")
+        return Val(Ty("dynclass"), key.t, meta=dict(map=v))
     raise Unsupported(f"subscript on {v.ty} at {src.loc(fr.fi, node)}")
 
 
